@@ -284,7 +284,8 @@ S2IChecks(e) == IF "s2i_match" \in DOMAIN e THEN {<<"model_behaviour_reproduced_
 ChainChecks(e) ==
   S2IChecks(e) \cup
   IF e.ev = "c_new" THEN
-       {<<"input_valid", IsValid(PosOfJson(e.pos))>>} \cup ObsChecks(NewChain(PosOfJson(e.pos)), e.obs)
+       \* (the start may be handed over un-normalised: the chain starts from what validation makes of it)
+       {<<"input_valid", Conditions(PosOfJson(e.pos)) = {}>>} \cup ObsChecks(NewChain(Normalise(PosOfJson(e.pos))), e.obs)
   ELSE
   LET cur == Cur(ch) IN
   CASE e.ev = "c_push" ->
@@ -346,7 +347,7 @@ ChainChecks(e) ==
 
 \* the abstract chain follows the implementation where that is meaningful; otherwise the session is dead
 ChainNext(e) ==
-  CASE e.ev = "c_new" -> NewChain(PosOfJson(e.pos))
+  CASE e.ev = "c_new" -> NewChain(Normalise(PosOfJson(e.pos)))
     [] e.ev = "c_push" -> IF e.res = "ok" THEN ChPushObs(ch, MoveOfJson(e.m), e.obs) ELSE ch
     [] e.ev = "c_pop" -> ChPop(ch)
     [] e.ev \in {"c_set_outcome", "c_reset_outcome"} -> [ch EXCEPT !.outcome = e.o]
@@ -713,7 +714,7 @@ StepChain(e) ==
   /\ UNCHANGED <<live, stk, obs, seen>>
   /\ IF e.ev = "c_new" THEN
           /\ Report(FailedOf(ChainChecks(e)))
-          /\ ch' = NewChain(PosOfJson(e.pos)) /\ pobs' = e.obs /\ dead' = FALSE
+          /\ ch' = NewChain(Normalise(PosOfJson(e.pos))) /\ pobs' = e.obs /\ dead' = FALSE
      ELSE IF dead THEN UNCHANGED <<ch, pobs, dead>>
      ELSE LET failed == FailedOf(ChainChecks(e)) IN
           /\ Report(failed)
